@@ -83,6 +83,7 @@ def lean_phase(pid, tier):
         targets = ["modeldriver"]
         if os.path.exists(os.path.join(LEAN, "Props", pid + ".lean")):
             targets.append("Props." + pid)
+        targets += PROPS[pid].get("extra_targets", [])
         rc, out = sh(["lake", "build"] + targets, cwd=LEAN, timeout=3000)
         if rc != 0:
             errs = [l for l in out.splitlines() if "error" in l][:20]
@@ -212,6 +213,36 @@ def run_shard(exe, workdir, stream, args, seed, shard, extra=None, timeout=3000)
     return res
 
 
+def race_stress(workdir, cfg, tier, seed):
+    """Free-running stress of one log under the Go race detector. Returns (ok, report, ops)."""
+    rs = cfg.get("race_stress")
+    if not rs:
+        return True, "", 0
+    with Lock(os.path.join(BUILD, "go.lock")):
+        exe = os.path.join(workdir, "harness.race")
+        rc, out = sh(["go", "build", "-race", "-tags", "verif", "-o", exe, "./cmd/harness"], cwd=HARN, env=GOENV, timeout=1800)
+    if rc != 0:
+        return False, "race build failed: " + out[-1500:], 0
+    ms = rs["ms_" + tier]
+    env = dict(os.environ, GORACE="halt_on_error=0 exitcode=66", GOMEMLIMIT="3GiB")
+    try:
+        rc, out = sh([exe, rs["stream"], "-seed", str(seed), "-n", str(ms), "-out", os.devnull,
+                      "-stats", os.path.join(workdir, "race.stats")], env=env, timeout=ms / 1000 + 120)
+    except subprocess.TimeoutExpired:
+        return False, "race stress did not terminate (deadlock?)", 0
+    ops = 0
+    try:
+        ops = json.load(open(os.path.join(workdir, "race.stats"))).get("Ops", 0)
+    except Exception:
+        pass
+    if "DATA RACE" in out or rc == 66:
+        i = out.find("WARNING: DATA RACE")
+        return False, out[i:i + 3000], ops
+    if rc != 0:
+        return False, f"race stress exited {rc}: " + out[-1500:], ops
+    return True, "", ops
+
+
 def case_of(line):
     m = re.search(r"\b(?:hist|case)=(\d+)", line)
     return int(m.group(1)) if m else None
@@ -293,6 +324,9 @@ def run_check(pid, tier, seed, replay=None):
                 futs = [ex.submit(run_shard, exe, workdir, n, a, s, k, e) for (n, a, s, k, e) in jobs]
                 results = [f.result() for f in futs]
 
+        race_ok, race_report, race_ops = (True, "", 0)
+        if exe is not None and not replay:
+            race_ok, race_report, race_ops = race_stress(workdir, cfg, tier, seed)
         known = [k for k in load_known() if k["property"] == pid]
         fields = re.compile(cfg.get("diff_fields", r".*"))
         spec_ids = set(cfg.get("spec_ids", [pid]))
@@ -342,6 +376,12 @@ def run_check(pid, tier, seed, replay=None):
                 notes.append(wl)
             if "lines" not in r["summary"]:
                 violations.append(("correspondence", "model driver did not complete on stream " + r["stream"], r, False))
+        if not race_ok:
+            os.makedirs(REPLAYS, exist_ok=True)
+            rp = os.path.join("replays", f"{pid}-race-{seed}.json")
+            json.dump(dict(property=pid, kind="race", seed=seed, theorem_or_stream="free-running stress under the Go race detector",
+                           failing_input_found=True, observed=race_report), open(os.path.join(VERIF, rp), "w"), indent=1)
+            violations.append(("race", "data race / hang in free-running stress: " + race_report.replace("\n", " | ")[:240], None, rp))
         if not results and not replay:
             violations.append(("obligation", "correspondence could not be run: " + "; ".join(notes)[:500], None, None))
 
@@ -353,6 +393,8 @@ def run_check(pid, tier, seed, replay=None):
         for kind, detail, r, found in violations[:12]:
             if r is not None:
                 path = write_replay(pid, kind, r, detail, f"stream {r['stream']}: {detail[:160]}", bool(found))
+            elif isinstance(found, str):
+                path = found
             else:
                 os.makedirs(REPLAYS, exist_ok=True)
                 path = os.path.join("replays", f"{pid}-obligation-{hashlib.sha1(detail.encode()).hexdigest()[:8]}.json")
@@ -406,6 +448,7 @@ def run_check(pid, tier, seed, replay=None):
                 relevant_diffs=n_diff, relevant_spec_failures=n_spec,
                 generator_distribution=stats_merged,
                 harness_crashes=sum(len(r["crashes"]) for r in results),
+                race_stress_ops=race_ops,
                 explanation="obligations/discharged count kernel-checked theorems (unbounded); evaluations/comparisons count the bounded differential validation of the model against the implementation and are not part of the proof",
                 exhaustive=False,
             ),
